@@ -31,7 +31,7 @@ def runChain : Nat → List Verdict → List Eff
   | i, .reject d :: _ => [.mwCalled i, .leaveAll, .connectError d]
 
 /-- `Namespace.add`: a recovered session skips the chain unless `UseMiddlewares` is set -/
-def admit (chain : List Verdict) (recovered useMw : Bool) : List Eff :=
+def admission (chain : List Verdict) (recovered useMw : Bool) : List Eff :=
   if recovered && !useMw then admitted else runChain 0 chain
 
 /-- per-socket event middlewares: which are called, and whether the handler runs -/
